@@ -114,6 +114,10 @@ pub static PANIC_SINK: std::sync::Mutex<Option<(String, usize)>> = std::sync::Mu
 /// name of the program being run (for the same purpose)
 pub static CURRENT: std::sync::Mutex<String> = std::sync::Mutex::new(String::new());
 
+pub fn clear_last_panic() {
+    LAST_PANIC.with(|l| l.borrow_mut().clear());
+}
+
 pub fn install_panic_hook() {
     std::panic::set_hook(Box::new(|info| {
         let msg = info
@@ -192,6 +196,7 @@ fn run_typed<T: Payload>(p: &Program, cfg: &RunCfg, m: Option<Arc<Explored>>) ->
             }
             ctl::begin_execution();
             hist::reset();
+            crate::exec::reset_wakers();
             let mut sets = setup::<T>(&p);
             let flags = Arc::new(Flags::new());
             let lockprog = p.is_lock_program();
@@ -199,18 +204,35 @@ fn run_typed<T: Payload>(p: &Program, cfg: &RunCfg, m: Option<Arc<Explored>>) ->
                 flags.touch_lock();
             }
             let mut joins = Vec::new();
+            let uses_flags = p
+                .threads
+                .iter()
+                .any(|t| t.ops.iter().any(|o| matches!(o, Op::Set(_) | Op::Wait(_))));
             let rest: Vec<_> = sets.drain(1..).collect();
             for (i, (s, r)) in rest.into_iter().enumerate() {
                 let p2 = p.clone();
                 let fl = flags.clone();
                 joins.push(loom::thread::spawn(move || {
-                    let mut c = Ctx::<T>::new(i + 1, s, r, fl);
-                    c.run(&p2);
+                    if uses_flags {
+                        fl.wait_start();
+                    }
+                    {
+                        let mut c = Ctx::<T>::new(i + 1, s, r, fl.clone());
+                        c.run(&p2);
+                    }
+                    fl.finished();
                 }));
+            }
+            if uses_flags {
+                let mut handles = vec![loom::thread::current()];
+                handles.extend(joins.iter().map(|j| j.thread().clone()));
+                flags.open(handles);
             }
             let (s0, r0) = sets.pop().unwrap();
             let mut c0 = Ctx::<T>::new(0, s0, r0, flags.clone());
             c0.run(&p);
+            // wait with park loops (tolerant of late unparks), join afterwards
+            flags.wait_finished(joins.len() as u32);
             for j in joins {
                 j.join().unwrap();
             }
